@@ -186,7 +186,7 @@ def kani_cmd(config, extra):
             ["-Z", "function-contracts", "-Z", "stubbing", "-Z", "unstable-options", "--no-overflow-checks"] + extra)
 
 
-def run_harnesses(scratch, config, names, jobs, timeout_s, per_harness_timeout="900s"):
+def run_harnesses(scratch, config, names, jobs, timeout_s, per_harness_timeout="900s", cbmc_args=None):
     """Run the named harnesses (exact) in one cargo-kani invocation. Returns (results, raw_output, cmd)."""
     out_json = os.path.join(scratch, "kani_out_%s.json" % config)
     if os.path.exists(out_json):
@@ -195,6 +195,8 @@ def run_harnesses(scratch, config, names, jobs, timeout_s, per_harness_timeout="
              "--harness-timeout", per_harness_timeout]
     for n in names:
         extra += ["--harness", n]
+    if cbmc_args:
+        extra += ["--cbmc-args"] + cbmc_args.split()
     cmd = kani_cmd(config, extra)
     rc, out, secs = run(cmd, cwd=scratch, timeout=timeout_s)
     if rc == -9:
@@ -248,6 +250,10 @@ def playback(scratch, config, full_name, module_file):
         return 0 if kind in ("assertion", "panic", "safety_check", "memory-safety", "overflow") or "assert" in kind else (2 if "cover" in kind else 1)
     blocks.sort(key=_rank)
     code = blocks[0]
+    # drop the generated doc comment (a multi-line check description breaks it); keep the test itself
+    k = code.find("#[test]")
+    if k >= 0:
+        code = code[k:]
     test = re.search(r"fn (kani_concrete_playback_\w+)", code).group(1)
     return run_playback_test(scratch, config, module_file, code, test, short)
 
